@@ -55,6 +55,32 @@ Theorem C16_balanced_path_releases :
 Proof. exact (conj balanced_exec (conj balanced_seq model_paths_balanced)). Qed.
 Print Assumptions C16_balanced_path_releases.
 
+(* 4b. general theorem, for ALL balanced paths, any number of goroutines and every schedule:
+      goroutines that each execute a sequence of balanced paths over one RWMutex (Lock excludes
+      everybody, RLock excludes writers; a goroutine that has to wait has no step) never reach a
+      state in which nobody can move while somebody is unfinished, a writer never coexists with
+      readers, every holder is a live goroutine, and when all have finished the mutex is free.
+      With 1. this covers the synchronized recorder wrapper, both synchronizedCollectors and the
+      catcher (their methods are in the table): any concurrent use of their methods is free of
+      self-inflicted deadlock. *)
+Theorem C16_lock_discipline_system : forall todo sched s,
+  (forall ps, In ps todo -> forall p, In p ps -> In p (map snd lock_paths)) ->
+  prun (pinit todo) sched = Some s ->
+  ((forall w, rw_writer (ps_rw s) = Some w -> rw_readers (ps_rw s) = []) /\
+   (forall w, rw_writer (ps_rw s) = Some w -> (w < List.length (ps_g s))%nat) /\
+   (forall r, In r (rw_readers (ps_rw s)) -> (r < List.length (ps_g s))%nat)) /\
+  ((exists g p, nth_error (ps_g s) g = Some p /\ pg_finished p = false) -> exists g, pstep s g <> None) /\
+  ((forall g p, nth_error (ps_g s) g = Some p -> pg_finished p = true) ->
+   rw_writer (ps_rw s) = None /\ rw_readers (ps_rw s) = []).
+Proof.
+  intros todo sched s Hin. apply psys_safe_and_live.
+  apply Forall_forall. intros ps Hps. apply forallb_forall. intros p Hp.
+  pose proof (Hin ps Hps p Hp) as Hi. apply in_map_iff in Hi. destruct Hi as [[n q] [Hq Hin']].
+  cbn in Hq. subst q.
+  exact (proj1 (forallb_forall _ _) C16_lock_paths_balanced (n, p) Hin').
+Qed.
+Print Assumptions C16_lock_discipline_system.
+
 (* ------------------------------------------------------------------ the system *)
 
 (* 5. whenever the mutex is held, its owner is a live goroutine inside a critical section,
@@ -156,6 +182,7 @@ Print Assumptions C16_one_flusher.
         - if it was never stamped, EndTest persists NOTHING (and the increments of that cycle are
           dropped by the reset) - this is what the code does (Appendix B: "persist iff stamped");
         - either way the counter restarts at 0.
+      ([persisted] is kept newest first, so "x :: persisted" appends sample x.)
       In addition, at every moment the running counter is the sum of the increments of the
       current cycle whose critical section has been executed. *)
 Theorem C16_sum : forall with_fl s, reachable (sut with_fl) s ->
